@@ -184,7 +184,8 @@ theorem addSeparatorIfNecessary_exec_matches_source (P : Par) (sepc line : Bytes
   | nil => simp [addSeparatorIfNecessary_body, sepIf]
   | cons x xs =>
     have hpos : (0 : Int) < (xs.length : Int) + 1 := by omega
-    simp [addSeparatorIfNecessary_body, sepIf, hpos, hfl]
+    have hne : ¬ ((xs.length : Int) + 1 = 0) := by omega
+    simp [addSeparatorIfNecessary_body, sepIf, hpos, hne, hfl]
 
 /-- `addSeparatorIfNecessary(line)`: the separator iff the line is not empty -/
 theorem addSeparatorIfNecessary_matches_source (P : Par) (c : ECfg) (sepc line : Bytes) (b : Bytes) (sp : Bool) (ns : Int)
